@@ -951,8 +951,8 @@ class FPNum:
             return
         
         if (e == 0):
-            # subnormal numbers
-            e = -16
+            # subnormal numbers have the exponent of the smallest normal, 1 - bias
+            e = -14
             m = m
         else:
             e = e - 15            
